@@ -44,13 +44,28 @@ def _pretty_order(value, obj_keys=None):
     return value
 
 
-def _selected_properties(obj):
-    """The names of the properties which the object's granular markings select."""
-    names = set()
+def _selected_defaults(obj):
+    """
+    The default-valued properties which the object's granular markings select
+    (or select something below), in the object itself and in the objects it
+    contains: (id of the containing object, property name) pairs.
+    """
+    selected = set()
     for marking in obj.get("granular_markings") or []:
         for selector in marking.get("selectors") or []:
-            names.add(selector.split(".")[0])
-    return names
+            current = obj
+            for step in str(selector).split("."):
+                if isinstance(current, stix2.base._STIXBase) \
+                        and step in current._defaulted_optional_properties:
+                    selected.add((id(current), step))
+                try:
+                    if step.startswith("[") and step.endswith("]"):
+                        current = current[int(step[1:-1])]
+                    else:
+                        current = current[step]
+                except (KeyError, IndexError, TypeError, ValueError):
+                    break
+    return selected
 
 
 class STIXJSONEncoder(json.JSONEncoder):
@@ -70,10 +85,13 @@ class STIXJSONEncoder(json.JSONEncoder):
             return format_datetime(obj)
         elif isinstance(obj, stix2.base._STIXBase):
             tmp_obj = dict(obj)
-            selected = _selected_properties(obj)
+            # (a granular marking must find the property it selects, also in
+            # a contained object, which is encoded after its container)
+            self._selected_defaults = getattr(
+                self, "_selected_defaults", set(),
+            ) | _selected_defaults(obj)
             for prop_name in obj._defaulted_optional_properties:
-                # (a granular marking must find the property it selects)
-                if prop_name not in selected:
+                if (id(obj), prop_name) not in self._selected_defaults:
                     del tmp_obj[prop_name]
             if self.pretty_order:
                 tmp_obj = _pretty_order(tmp_obj, list(obj))
